@@ -2,6 +2,8 @@ import QF.Drv.Parse
 import QF.Spec.Num
 import QF.Drv.Hist
 import QF.Props.C14Quote
+import QF.Core.Ryu64
+import QF.Props.C16CoreCheck
 /-
 Driver section "ryu": the float formatter.
 Spec (C16): output = buffer prefix ++ text, where text is the shortest positional decimal that parses back to the
@@ -53,17 +55,32 @@ def ryuLine (toks : Array String) : List Msg :=
         let b ← next
         let m ← nat
         let e ← int
-        let _x ← bool01
-        return (b, m, e)) toks 1 with
+        let x ← bool01
+        return (b, m, e, x)) toks 1 with
     | .error e => [{ cls := "DRIVER-ERROR", op := "ryudec", kind := "parse", detail := e }]
-    | .ok (b, m, e) =>
+    | .ok (b, m, e, x) =>
       match hexNat b with
       | none => [{ cls := "DRIVER-ERROR", op := "ryudec", kind := "parse", detail := "bad bits" }]
       | some bn =>
         -- the decimal (m, e) computed by the core must denote the float (magnitude) exactly under correct rounding
         let bits := UInt64.ofNat bn &&& 0x7fffffffffffffff
-        if Num.ofDecimal false m e == bits then [{ cls := "OK", op := "ryudec", kind := "", detail := "" }]
-        else [{ cls := "SPEC-MISMATCH", op := "ryudec", kind := "decimal", detail := s!"float {b}: core decimal {m}e{e} does not parse back to it" }]
+        -- the mirror of float64ToDecimalExactInt / float64ToDecimal (QF.Ryu64) must compute the same decimal and the same fast-path flag
+        let mant := bn % 2 ^ 52
+        let exp := bn / 2 ^ 52 % 2048
+        let (mm, me, mx) := Ryu64.decimal mant exp
+        let specMsgs : List Msg :=
+          if Num.ofDecimal false m e != bits then
+            [{ cls := "SPEC-MISMATCH", op := "ryudec", kind := "decimal", detail := s!"float {b}: core decimal {m}e{e} does not parse back to it" }]
+          else []
+        let mirrorMsgs : List Msg :=
+          if (mm, me, mx) != (m, e, x) then
+            [{ cls := "MIRROR-MISMATCH", op := "ryudec", kind := "mirror", detail := s!"float {b} (mant {mant} exp {exp}): implementation {m}e{e} exactInt={x}, mirror {mm}e{me} exactInt={mx}" }]
+          else if !mx && !QF.Props.C16Core.floorsHold mant exp then
+            -- the hypothesis of QF.Props.C16Core.ryu_shortest_partial (the three mulShift64 results are exact floors), decided for this float
+            [{ cls := "MIRROR-MISMATCH", op := "ryudec", kind := "hypothesis", detail := s!"float {b} (mant {mant} exp {exp}): the hypothesis of ryu_shortest_partial does not hold: a mulShift64 result of step 3 is not the exact floor" }]
+          else []
+        if specMsgs.isEmpty && mirrorMsgs.isEmpty then [{ cls := "OK", op := "ryudec", kind := "", detail := "" }]
+        else specMsgs ++ mirrorMsgs
   | _ => []
 
 /-- Section "quote": AppendQuotedString against its mirror (exact bytes) and against the RFC 8259 string parser
